@@ -786,6 +786,10 @@ func (sc *SpecCtx) call(x *ast.CallExpr) SV {
 			case "same":
 				a, b := sc.eval(x.Args[0]), sc.eval(x.Args[1])
 				return SV{eq(a.t, b.t), boolT}
+			case "sameblock":
+				// the two slices share their backing block
+				a, b := sc.eval(x.Args[0]), sc.eval(x.Args[1])
+				return SV{eq(slBase(a.t), slBase(b.t)), boolT}
 			case "pair2":
 				a, b := sc.eval(x.Args[0]), sc.eval(x.Args[1])
 				as := arrSort(sInt, sInt)
@@ -868,11 +872,28 @@ func (sc *SpecCtx) call(x *ast.CallExpr) SV {
 				return SV{eq(ifTag(v.t), tInt(int64(q.so.tag(t)))), boolT}
 			case "allocated":
 				v := sc.eval(x.Args[0])
+				if v.t.Sort == sSlice {
+					v.t = slBase(v.t) // a slice: its backing block
+				}
 				return SV{and(lt(tInt(0), v.t), lt(v.t, q.heapGet(sc.curHeap(), allocKey))), boolT}
 			case "freshref":
-				// allocated now, but not in the old state
+				// allocated now, but not in the old state (a slice: its backing block)
 				v := sc.eval(x.Args[0])
+				if v.t.Sort == sSlice {
+					v.t = slBase(v.t)
+				}
 				return SV{and(le(q.heapGet(sc.old, allocKey), v.t), lt(v.t, q.heapGet(sc.heap, allocKey))), boolT}
+			case "memsame":
+				// memsame(T): no element of a []T / [n]T block that existed in the old state has changed
+				t := sc.typeByExpr(x.Args[0])
+				if t == nil {
+					sc.fail("memsame: unknown type")
+				}
+				key := sc.ex.memKey(t)
+				a0 := q.heapGet(sc.old, allocKey)
+				mNew, mOld := q.heapGet(sc.heap, key), q.heapGet(sc.old, key)
+				return SV{Term{fmt.Sprintf("(forall ((b Int)) (! (=> (and (< b %s) (< (- (* 64 %s)) b)) (= (select %s b) (select %s b))) :pattern ((select %s b))))",
+					a0.S, a0.S, mNew.S, mOld.S, mNew.S), sBool}, boolT}
 			case "streq":
 				a, b := sc.eval(x.Args[0]), sc.eval(x.Args[1])
 				return SV{q.strEq(a.t, b.t), boolT}
